@@ -444,7 +444,18 @@ func genE2ERefs(r *rng, objs []gObj) []string {
 				cand = append(cand, i)
 			}
 		}
-		refs = append(refs, fmt.Sprintf("%s=%d", name, cand[r.n(len(cand))]))
+		target := cand[r.n(len(cand))]
+		if len(refs) > 0 && r.coin(1, 3) {
+			// several references naming the same object (a branch and its remote-tracking
+			// twin, a lightweight tag on a branch tip): only some of them may be selected
+			prev, _ := strconv.Atoi(strings.SplitN(refs[r.n(len(refs))], "=", 2)[1])
+			for _, c := range cand {
+				if c == prev {
+					target = prev
+				}
+			}
+		}
+		refs = append(refs, fmt.Sprintf("%s=%d", name, target))
 	}
 	sort.Strings(refs)
 	return refs
